@@ -78,12 +78,32 @@ package keeper
 // the escrow module as seen from the market keeper: it has its own store (A-WIRING: distinct store keys);
 // closing a bid-deposit account touches neither this store nor the event log of typed marketplace events
 //@ spec mktEscrowSKey(): iface
+// Closing a deployment's payment may exhaust the account and so run the marketplace hooks; whatever they do to
+// another module's store, they only close records (never create, delete, re-open or rewrite them) and only add
+// events (assumed here, A-HOOKS; the hooks themselves are verified against it in x/market/hooks).
+//@ spec opaque mktMono(h0: map[str]bool, v0: map[str]str, h1: map[str]bool, v1: map[str]str): bool =
+//@     (forall key: str :: h1[key] == h0[key])
+//@     && (forall o: types.OrderID :: ordOf(v1, o) == ordOf(v0, o) || ordOf(v1, o) == upd(ordOf(v0, o), State, types.OrderClosed))
+//@     && (forall b: types.BidID :: bidOf(v1, b) == bidOf(v0, b) || bidOf(v1, b) == upd(bidOf(v0, b), State, types.BidClosed))
+//@     && (forall l: types.LeaseID :: leaseOf(v1, l) == leaseOf(v0, l) || leaseOf(v1, l) == upd(leaseOf(v0, l), State, types.LeaseClosed)
+//@                                     || leaseOf(v1, l) == upd(leaseOf(v0, l), State, types.LeaseInsufficientFunds))
+//@ lemma mktMonoRefl(h: map[str]bool, v: map[str]str)
+//@   ensures mktMono(h, v, h, v)
+//@   trigger mktMono(h, v, h, v)
+//@ lemma mktMonoTrans(h0: map[str]bool, v0: map[str]str, h1: map[str]bool, v1: map[str]str, h2: map[str]bool, v2: map[str]str)
+//@   requires mktMono(h0, v0, h1, v1) && mktMono(h1, v1, h2, v2)
+//@   ensures mktMono(h0, v0, h2, v2)
+//@   trigger mktMono(h0, v0, h1, v1), mktMono(h1, v1, h2, v2)
+//@ ghost PayCloseReq: map[str]map[str]bool
 //@ extern keeper.(EscrowKeeper).AccountClose(recv, ctx, id)
 //@   modifies ghost KVhas, ghost KVval, ghost G, ghost Bank, ghost Mod, ghost It_all, ghost EvN, ghost EvLog
 //@   ensures id.Scope == "bid" ==> EvN == old(EvN) && EvLog == old(EvLog)
 //@        && (forall sk: iface :: sk != mktEscrowSKey() ==> KVhas[sk] == old(KVhas)[sk] && KVval[sk] == old(KVval)[sk])
 //@ extern keeper.(EscrowKeeper).PaymentClose(recv, ctx, id, pid)
-//@   modifies ghost KVhas, ghost KVval, ghost G, ghost Bank, ghost Mod, ghost It_all, ghost EvN, ghost EvLog
+//@   modifies ghost KVhas, ghost KVval, ghost G, ghost Bank, ghost Mod, ghost It_all, ghost EvN, ghost EvLog, ghost PayCloseReq
+//@   ensures PayCloseReq == old(PayCloseReq)[id.XID := old(PayCloseReq)[id.XID][pid := true]]
+//@   ensures EvN >= old(EvN) && (forall j: int :: 0 <= j && j < old(EvN) ==> EvLog[j] == old(EvLog)[j])
+//@   ensures forall sk: iface :: sk != mktEscrowSKey() ==> mktMono(old(KVhas)[sk], old(KVval)[sk], KVhas[sk], KVval[sk])
 
 //@ func (Keeper).GetOrder
 //@   ensures result1 <==> KVhas[k.skey][orderKeyOf(id)]
@@ -177,6 +197,66 @@ package keeper
 //@   loop 1 invariant forall j: int :: 0 <= j && j < CbN - old(CbN) ==> CbArg_types_Bid[old(CbN)+j] == decode(types.Bid, old(KVval)[k.skey][enumKey(old(KVhas)[k.skey], bidsForOrderOf(id), j)])
 //@   loop 1 invariant forall j: int :: 0 <= j && j < CbN - old(CbN) ==> !CbRes[old(CbN)+j]
 
+// a new order is created exactly when every earlier order of the group is closed; it is then the group's only
+// non-closed order, gets the next sequence number, and the creation is announced
+//@ func (Keeper).CreateOrder$1
+//@   modifies err, oseq
+//@   ensures order.State == types.OrderClosed ==> !result && err == nil && oseq == old(oseq) + 1
+//@   ensures order.State != types.OrderClosed ==> result && err != nil && oseq == old(oseq)
+//@ func (Keeper).CreateOrder
+//@   modifies ghost KVhas, ghost KVval, ghost G, ghost EvN, ghost EvLog, ghost It_all
+//@   call 1 invariant KVhas == atloop(KVhas) && KVval == atloop(KVval) && EvN == atloop(EvN) && EvLog == atloop(EvLog)
+//@   call 1 invariant !cbstop ==> err == nil && oseq == 1 + cbidx
+//@   call 1 invariant forall j: int :: 0 <= j && j < cbidx && !(cbstop && j == cbidx - 1) ==>
+//@                decode(types.Order, KVval[k.skey][enumKey(KVhas[k.skey], ordersForGroupOf(gid), j)]).State == types.OrderClosed
+//@   call 1 invariant cbstop ==> err != nil && cbidx >= 1
+//@                && decode(types.Order, KVval[k.skey][enumKey(KVhas[k.skey], ordersForGroupOf(gid), cbidx - 1)]).State != types.OrderClosed
+//@   ensures [active] (exists j: int :: 0 <= j && j < enumLen(old(KVhas)[k.skey], ordersForGroupOf(gid))
+//@                && decode(types.Order, old(KVval)[k.skey][enumKey(old(KVhas)[k.skey], ordersForGroupOf(gid), j)]).State != types.OrderClosed) ==> result1 != nil
+//@   ensures [fail] result1 != nil ==> KVhas == old(KVhas) && KVval == old(KVval) && EvN == old(EvN) && EvLog == old(EvLog)
+//@   ensures [alone] result1 == nil ==> (forall j: int :: 0 <= j && j < enumLen(old(KVhas)[k.skey], ordersForGroupOf(gid)) ==>
+//@                decode(types.Order, old(KVval)[k.skey][enumKey(old(KVhas)[k.skey], ordersForGroupOf(gid), j)]).State == types.OrderClosed)
+//@   ensures [created] result1 == nil ==> result0.OrderID.Owner == gid.Owner && result0.OrderID.DSeq == gid.DSeq && result0.OrderID.GSeq == gid.GSeq
+//@                && result0.OrderID.OSeq == enumLen(old(KVhas)[k.skey], ordersForGroupOf(gid)) + 1
+//@                && result0.State == types.OrderOpen && result0.Spec == spec && !old(KVhas)[k.skey][orderKeyOf(result0.OrderID)]
+//@                && KVhas == old(KVhas)[k.skey := old(KVhas)[k.skey][orderKeyOf(result0.OrderID) := true]]
+//@                && KVval == old(KVval)[k.skey := old(KVval)[k.skey][orderKeyOf(result0.OrderID) := encode(result0)]]
+//@                && EvN == old(EvN) + 1 && EvLog == old(EvLog)[old(EvN) := sigOrder(1, result0.OrderID)]
+
+// closing a group: every order under it, every bid under each of them, and the lease of each such bid is closed,
+// and the lease's payment stream is asked to close; nothing is re-opened and the walk never stops early
+//@ func (Keeper).OnGroupClosed$1$1
+//@   requires k.skey != mktEscrowSKey()
+//@   modifies ghost KVhas, ghost KVval, ghost G, ghost Bank, ghost Mod, ghost It_all, ghost EvN, ghost EvLog, ghost PayCloseReq
+//@   uses mktMonoTrans, mktMonoRefl, kindsDisjoint
+//@   ensures [walk] !result
+//@   ensures [mono] mktMono(old(KVhas)[k.skey], old(KVval)[k.skey], KVhas[k.skey], KVval[k.skey])
+//@   ensures [bid] bid.State != types.BidLost ==> bidOf(KVval[k.skey], bid.BidID).State == types.BidClosed
+//@   ensures [lease] old(KVhas)[k.skey][leaseKeyOf(asLease(bid.BidID))] ==>
+//@                leaseOf(KVval[k.skey], leaseOf(old(KVval)[k.skey], asLease(bid.BidID)).LeaseID).State != types.LeaseActive
+//@   ensures [payment] old(KVhas)[k.skey][leaseKeyOf(asLease(bid.BidID))] ==>
+//@                PayCloseReq[depXID(upd(upd(zeroDID(), Owner, id.Owner), DSeq, id.DSeq))][leasePID(leaseOf(old(KVval)[k.skey], asLease(bid.BidID)).LeaseID)]
+//@   ensures [events] EvN >= old(EvN) && (forall j: int :: 0 <= j && j < old(EvN) ==> EvLog[j] == old(EvLog)[j])
+//@ spec zeroDID(): dtypes.DeploymentID
+//@ func (Keeper).OnGroupClosed$1
+//@   requires k.skey != mktEscrowSKey()
+//@   modifies ghost KVhas, ghost KVval, ghost G, ghost Bank, ghost Mod, ghost It_all, ghost EvN, ghost EvLog, ghost PayCloseReq
+//@   uses mktMonoTrans, mktMonoRefl, kindsDisjoint
+//@   call 1 invariant mktMono(atloop(KVhas)[k.skey], atloop(KVval)[k.skey], KVhas[k.skey], KVval[k.skey])
+//@   call 1 invariant !cbstop && EvN >= atloop(EvN) && (forall j: int :: 0 <= j && j < atloop(EvN) ==> EvLog[j] == atloop(EvLog)[j])
+//@   ensures [walk] !result
+//@   ensures [mono] mktMono(old(KVhas)[k.skey], old(KVval)[k.skey], KVhas[k.skey], KVval[k.skey])
+//@   ensures [order] ordOf(KVval[k.skey], order.OrderID).State == types.OrderClosed
+//@   ensures [events] EvN >= old(EvN) && (forall j: int :: 0 <= j && j < old(EvN) ==> EvLog[j] == old(EvLog)[j])
+//@ func (Keeper).OnGroupClosed
+//@   requires k.skey != mktEscrowSKey()
+//@   modifies ghost KVhas, ghost KVval, ghost G, ghost Bank, ghost Mod, ghost It_all, ghost EvN, ghost EvLog, ghost PayCloseReq
+//@   uses mktMonoTrans, mktMonoRefl
+//@   call 1 invariant mktMono(atloop(KVhas)[k.skey], atloop(KVval)[k.skey], KVhas[k.skey], KVval[k.skey])
+//@   call 1 invariant !cbstop && EvN >= atloop(EvN) && (forall j: int :: 0 <= j && j < atloop(EvN) ==> EvLog[j] == atloop(EvLog)[j])
+//@   ensures [mono] mktMono(old(KVhas)[k.skey], old(KVval)[k.skey], KVhas[k.skey], KVval[k.skey])
+//@   ensures [events] EvN >= old(EvN) && (forall j: int :: 0 <= j && j < old(EvN) ==> EvLog[j] == old(EvLog)[j])
+
 // the number of bids on an order (C08: bid cap)
 //@ func (Keeper).BidCountForOrder
 //@   modifies ghost It_all
@@ -185,7 +265,9 @@ package keeper
 
 //@ property C04 := (Keeper).GetOrder#*, (Keeper).GetBid#*, (Keeper).GetLease#*, (Keeper).updateOrder#*, (Keeper).updateBid#*, (Keeper).updateLease#*,
 //@                 (Keeper).CreateBid#*, (Keeper).CreateLease#*, (Keeper).OnOrderMatched#*, (Keeper).OnBidMatched#*, (Keeper).OnBidLost#*, (Keeper).OnBidClosed#*,
-//@                 (Keeper).OnOrderClosed#*, (Keeper).OnLeaseClosed#*, (Keeper).WithOrdersForGroup#*, (Keeper).WithBidsForOrder#*, (Keeper).BidCountForOrder#*
+//@                 (Keeper).OnOrderClosed#*, (Keeper).OnLeaseClosed#*, (Keeper).WithOrdersForGroup#*, (Keeper).WithBidsForOrder#*, (Keeper).BidCountForOrder#*,
+//@                 (Keeper).CreateOrder#*, (Keeper).CreateOrder$1#*, (Keeper).OnGroupClosed#*, (Keeper).OnGroupClosed$1#*, (Keeper).OnGroupClosed$1$1#*,
+//@                 lemma:mktMonoRefl, lemma:mktMonoTrans
 
 //@ property C06 := orderKey#*, bidKey#*, leaseKey#*, ordersForGroupPrefix#*, bidsForOrderPrefix#*,
 //@     lemma:orderKeyInj, lemma:bidKeyInj, lemma:leaseKeyInj, lemma:ordersForGroupExact, lemma:bidsForOrderExact, lemma:kindsDisjoint
